@@ -55,10 +55,10 @@ PLANS = {
     "C19": dict(
         quick=dict(mc=["core2"], gens=[dict(maxlog=2, num=60, depth=24, lean=True, focus="commit", templates="rollback")],
                    per_beh=2, fs=[1, 3, 25, 60], vts=["ovf", "mixed", "mixed2", "big", "edge"], embs=api.EMBEDDINGS_QUICK,
-                   decode=True, tiny_ht=True, alloc=True, occupancy=5, cycles=dict(runs=6, n=5, fs=[25, 60, 200], vts=["ovf", "mixed", "big", "edge"])),
+                   decode=True, tiny_ht=True, alloc=True, occupancy=5, flsweep=4, cycles=dict(runs=6, n=5, fs=[25, 60, 200], vts=["ovf", "mixed", "big", "edge"])),
         thorough=dict(mc=["core", "core2"], gens=[dict(maxlog=2, num=500, depth=32, lean=True, focus="commit", templates="rollback")],
                       per_beh=4, fs=[1, 3, 25, 60, 400], vts=["ovf", "mixed", "mixed2", "big", "edge", "huge"],
-                      embs=api.EMBEDDINGS_ALL, decode=True, tiny_ht=True, alloc=True, occupancy=9,
+                      embs=api.EMBEDDINGS_ALL, decode=True, tiny_ht=True, alloc=True, occupancy=9, flsweep=24,
                       cycles=dict(runs=60, n=12, fs=[25, 60, 200, 400, 1200], vts=["ovf", "mixed", "mixed2", "big", "edge", "huge"]))),
     "C09": dict(
         quick=dict(mc=["core2"], gens=[dict(maxlog=1, num=40, depth=24, lean=True, focus="rollback"),
@@ -116,6 +116,13 @@ def run_plan(pid, tier, seed, extra_cov=None, t0=None):
             p = C.write_replay(pid, "design-%s" % name, dict(kind="tlc-counterexample", config=name,
                                                              output=r["output"][-20000:]))
             violations.append(dict(prop=pid, replay=p, what="NomtApi invariant violated at design level"))
+    if pid == "C19" and not os.environ.get("VERIF_DEBUG_SKIP_MC"):
+        # the free list of the value files has its own transcription (nothing lost, nothing handed out twice)
+        from . import freelist
+        fs, ft, fsum = freelist.design_level(pid, tier, violations)
+        states += fs
+        trans += ft
+        mc_summ.extend(dict(config=x["config"], states=x["states"], transitions=0, ok=x["ok"], wall_s=0) for x in fsum)
     # 2./3. behaviours -> scripts
     scripts = {}
     classes = {}     # run -> constants class key
@@ -274,6 +281,19 @@ def run_plan(pid, tier, seed, extra_cov=None, t0=None):
                 classes[run] = "ml2_rb1"
                 script_by_run[run] = sc
                 distinct.add(C.sha([beh, store, conc]))
+    if plan.get("flsweep"):
+        # multi-page free lists (several thousand freed pages), written out in full for FreeListTrace / AllocTrace
+        from . import sync as _sync
+        extra, fconsts = _sync.freelist_sweep_scripts(pid, rng, run, plan["flsweep"])
+        consts_by_class.setdefault("ml2_rb1", fconsts)
+        for sc in extra:
+            sc["decode"] = True
+            sc["decode_full"] = True
+            run = max(run, sc["run"])
+            scripts[sc["run"]] = sc
+            classes[sc["run"]] = "ml2_rb1"
+            script_by_run[sc["run"]] = sc
+            distinct.add(C.sha([sc["steps"], sc["cfg"], sc["conc"]]))
     cycle_runs = []
     if plan.get("cycles"):
         # fill / overwrite-with-another-size-class / empty cycles (legal NomtApi behaviours; ApiTrace validates them too)
@@ -408,6 +428,19 @@ def run_plan(pid, tier, seed, extra_cov=None, t0=None):
             else:
                 violations.append(dict(prop=pid, replay=p, what="page accounting of %s between two commits is not an Alloc!Step "
                                                                 "(leak, reuse of a live page, or incomplete partition)" % pr["file"]))
+        # 6c. the free list itself: FreeList!Finish predicts the list after each sync from the list before it
+        flpairs = [pr for pr in pairs if "bumps" not in pr and "flp" in pr["a"] and "flp" in pr["b"]]
+        if flpairs:
+            bad_fl = validate_freelist(flpairs, pid)
+            multi = sum(1 for pr in flpairs if len(pr["a"]["flp"]) > 1 or len(pr["b"]["flp"]) > 1)
+            C.log("[%s] FreeListTrace: %d snapshot pairs (%d with a list of several pages), %d not predicted" % (pid, len(flpairs), multi, len(bad_fl)))
+            alloc_pairs += len(flpairs)
+            for i in bad_fl[:5]:
+                pr = flpairs[i]
+                p = C.write_replay(pid, "freelist-run%d-%s-%s" % (pr["run"], pr["file"], pr.get("i")),
+                                   dict(kind="freelist-pair", property=pid, pair=pr, script=script_by_run[pr["run"]]))
+                violations.append(dict(prop=pid, replay=p, what="the free list of %s after a sync is not the one FreeList!Finish predicts "
+                                                                "from the list before it (step %s)" % (pr["file"], pr.get("i"))))
     # 7. report
     for k in sorted(set(json.dumps(x, sort_keys=True) for x in known)):
         k = json.loads(k)
@@ -439,6 +472,26 @@ def run_plan(pid, tier, seed, extra_cov=None, t0=None):
     C.write_evidence(pid, tier, seed, "exploration" if pid == "C13" else "model_checking", cov, time.time() - t0, ASSUME,
                      violations=len(violations) + int((extra_cov or {}).get("leg_violations", 0)))
     return 1 if violations else 0
+
+
+def validate_freelist(pairs, tag):
+    import re
+    tdir = os.path.join(C.OUT, "traces")
+    os.makedirs(tdir, exist_ok=True)
+    tp = os.path.join(tdir, "freelist_%s.ndjson" % tag)
+    with open(tp, "w") as f:
+        for p in pairs:
+            f.write(json.dumps(dict(file=p["file"], a=dict(bump=p["a"]["bump"], live=p["a"]["live"], flp=p["a"]["flp"]),
+                                    b=dict(bump=p["b"]["bump"], live=p["b"]["live"], flp=p["b"]["flp"]))) + "\n")
+    cfg = os.path.join(C.OUT, "FreeListTrace_%s.cfg" % tag)
+    C.write_cfg(cfg, "TSpec", dict(M=1022, MaxPage=100000000, MaxAlloc=0, MaxFreed=0, MaxSyncs=0, Drop=set(), AllSubsets=False, MaxWaste=3),
+                postcondition="Finished")
+    rc, out = C.run_tlc("FreeListTrace.tla", cfg, tag="freelisttrace" + tag, nworkers=1, timeout=2400, heap="8g", env_extra={"TRACE": tp},
+                        java_opts="-Xss2g -Dtlc2.tool.queue.IStateQueue=StateDeque")
+    if '"TRACE-COMPLETE"' not in out:
+        raise C.ToolError("FreeListTrace did not complete:\n" + out[-2000:])
+    os.remove(tp)
+    return [int(m.group(1)) - 1 for m in re.finditer(r'<<"BAD-RECORD", (\d+)>>', out)]
 
 
 def validate_alloc(pairs, tag):
